@@ -35,7 +35,7 @@ def gen_script(rng, maxsel=4, maxwork=10, allow_reinit=True):
             l1 = 'EPANY ' + rng.choice(['plain', 'endom', 'ec', 'any'])
             l2 = None
             steps.append(l1)
-        elif r < 76:
+        elif r < 73:
             l3 = 'EBSET ' + rng.choice(['any', 'NIST_B283', 'NIST_K283'])
             l4 = None
             steps.append(l3)
